@@ -105,17 +105,26 @@ class Interp:
 
     # ------------------------------------------------------------------ evaluation
     def canon(self, p, key):
-        """Rewrite the leading pointer variable of an access path through recorded aliases."""
+        """Rewrite the leading pointer variable of an access path through recorded aliases and
+        abstract objects: with x = Alias('a->b') the path x->f is a->b->f; with x = Ptr('S') it is S->f."""
         if key is None:
             return None
-        for _ in range(4):
+        for _ in range(6):
             k = key.find("->")
             if k <= 0:
                 break
             base = key[:k]
-            v = p.env.get(base)
+            if base in p.env:
+                v = p.env[base]
+            elif base in self.inputs and base not in p.clobbered:
+                v = self.inputs[base]
+            else:
+                v = None
             if isinstance(v, Alias):
                 key = v.key + key[k:]
+            elif isinstance(v, Ptr) and isinstance(v.what, str) and v.what[:4] not in ("str:", "fn:", "arr:") \
+                    and not v.what.startswith("fn:") and v.what != base:
+                key = v.what + key[k:]
             else:
                 break
         return key
@@ -153,7 +162,9 @@ class Interp:
             # a pointer variable changed: what it pointed to is no longer what was recorded
             for k in [k for k in p.env if k.startswith(key + "->")]:
                 del p.env[k]
-            if not isinstance(v, Alias):
+            for c in (key + "->", key + ".", key + "["):
+                p.clobbered.discard(c)
+            if not isinstance(v, (Alias, Ptr)):
                 p.clobbered.add(key + "->")
         # a write to an aggregate path invalidates longer paths below it
         for k in [k for k in p.env if k != key and (k.startswith(key + ".") or k.startswith(key + "->"))]:
@@ -201,7 +212,11 @@ class Interp:
                 return TOP
             if e.get("t", "").endswith("]"):
                 return Ptr("arr:" + str(lvalue_key(e, fn)))
-            return self.read(p, lvalue_key(e, fn))
+            v = self.read(p, lvalue_key(e, fn))
+            if v is TOP and (e.get("r", "").endswith("_list_st") or e.get("r") == "KSI_List_st") and "(*)" in e.get("t", ""):
+                # list objects are only made by KSI_List_new, which fills the whole vtable (list.c)
+                return Ptr("vtbl:" + e["f"])
+            return v
         if k == "cast":
             v = self.ev(p, e["e"])
             if "w" in e and isinstance(v, int):
@@ -527,3 +542,84 @@ def regions(consts, lo=0, hi=(1 << 64) - 1):
             if lo <= v <= hi:
                 vals.add(v)
     return sorted(vals)
+
+
+def inline_model(prog, names, fallback=None, depth=0):
+    """call_model that evaluates the named (pure) callees by abstract evaluation of their own CFG:
+    parameters are bound to the argument values, pointer arguments keep their object identity
+    (Ptr('S') dereferences to the caller-visible path S->field).  The callee must return the same
+    value on every path explored; otherwise the result is TOP."""
+    names = set(names)
+
+    def model(I, p, node, name, args, callee_val):
+        if name in names and depth < 4:
+            fns = prog.functions.get(name, [])
+            if len(fns) == 1:
+                cf = fns[0]
+                inputs = dict(I.inputs)
+                # caller state visible through object paths
+                for k, v in p.env.items():
+                    if "->" in k or "." in k:
+                        inputs[k] = v
+                for prm, a in zip(cf.params, args):
+                    inputs[prm["n"]] = a
+                sub = Interp(cf, inputs=inputs, call_model=inline_model(prog, names, fallback, depth + 1), on_unknown="both", prog=prog,
+                             max_paths=2000)
+                paths = sub.run()
+                rets = set()
+                for q in paths:
+                    if q.reason != "exit" or not q.returned:
+                        return TOP
+                    rets.add(q.ret if not isinstance(q.ret, (list, dict)) else TOP)
+                    for t in q.trace:
+                        if t[0] == "store" and ("->" in t[1] or t[1].startswith("*")):
+                            # not pure: give up on precision
+                            return TOP
+                if len(rets) == 1:
+                    return rets.pop()
+                return TOP
+        if fallback is not None:
+            return fallback(I, p, node, name, args, callee_val)
+        return TOP
+
+    return model
+
+
+def succeed_model(prog, overrides=None, fallback=None):
+    """call_model for 'happy path' tables: every status-returning callee returns KSI_OK (0) and
+    leaves a fresh abstract object in each `&local` out-argument; `overrides` maps a callee name to
+    fn(I, p, node, args) -> return value (and may write the environment)."""
+    overrides = overrides or {}
+
+    def model(I, p, node, name, args, callee_val):
+        if name in overrides:
+            return overrides[name](I, p, node, args)
+        ret = None
+        if name:
+            fns = prog.functions.get(name, [])
+            if fns:
+                ret = fns[0].ret
+            elif name in prog.protos:
+                ret = prog.protos[name]["ret"]
+            elif node.get("macro"):
+                ret = node.get("t")
+        if ret == "int":
+            ptypes = []
+            if name and prog.functions.get(name):
+                ptypes = [x["t"] for x in prog.functions[name][0].params]
+            elif name in prog.protos:
+                ptypes = [x["t"] for x in prog.protos[name]["params"]]
+            for j, a in enumerate(node["a"]):
+                a0 = strip(a)
+                if j < len(ptypes) and ptypes[j].startswith("const ") and "**" not in ptypes[j]:
+                    continue    # input passed by address
+                if isinstance(a0, dict) and a0.get("k") == "un" and a0["op"] == "&":
+                    key = I.canon(p, lvalue_key(a0["e"], I.fn))
+                    if key is not None:
+                        I.write(p, key, Ptr("%s#%d" % (name, j)))
+            return 0
+        if fallback is not None:
+            return fallback(I, p, node, name, args, callee_val)
+        return TOP
+
+    return model
